@@ -106,4 +106,21 @@ CHECKS = {
         assumptions=['group = Telegram\'s 2048-bit prime with g in {3,4,7} (the generators valid for it)', 'crypto/sha256, crypto/sha512, crypto/hmac, math/big of the standard library',
                      'the reference conventions reproduce the M1 recorded in the repository\'s 2fa_test.go (checked in bin/setup)'],
     ),
+    'C12': dict(
+        pkg='./c12', test='TestC12', level='exploration',
+        quick=dict(shards=8, checks=150),
+        thorough=dict(shards=16, checks=6000, budget_s=3000),
+        level_text=('Model-based state machine: generated histories of store/load/remove/tear operations on three path kinds are executed against the real '
+                    'file store and an in-memory model (last store wins); tear enumerates every prefix length 0..n-1 of the file as a crash point.'),
+        technique='model-based stateful property testing (rapid) with exhaustive crash-point (file prefix) enumeration per generated session',
+        rule=('history = 1..14 operations over {storeA, storeFresh, storeSameTick (second store whose mtime equals the previous one, emulating coarse-timestamp '
+              'filesystems), loadA, loadFresh, remove, tear (every prefix of the file)} on {absolute, relative, bare-file-name} paths; sessions with keys/hashes of '
+              '0..300 arbitrary bytes, salts over all int64 classes, host names of arbitrary valid UTF-8 incl. JSON metacharacters. Non-trivial: a load after a '
+              'second store, a torn file, a non-ASCII or metacharacter host, or a negative salt; distinct by hash of the history.'),
+        must_hit=['op:tear', 'torn-file', 'load-after-second-store', 'load-after-same-tick-store', 'load-missing', 'path:bare', 'path:relative', 'path:absolute',
+                  'host-non-ascii', 'host-json-metachar', 'salt-negative', 'op:remove', 'op:storeFresh', 'op:loadFresh'],
+        assumptions=['host names are valid UTF-8 (JSON cannot carry other byte strings)', 'the directory of the path exists',
+                     'a crash during writing leaves a prefix of the new content (os.WriteFile truncates, then writes)',
+                     'same-tick stores are emulated with os.Chtimes and only for stores through the loader that later loads'],
+    ),
 }
